@@ -394,7 +394,7 @@ func fieldsNontrivial(ast *ref.Node) bool {
 func TestC10Random(t *testing.T) {
 	run := h.Begin("C10", "random", "rapid: programs over data names, $ locals, names containing '$' inside, builtin names, dotted paths of depth 1-4 (with '!.', keywords and $-names as member names), calls whose callee is a name or path (0-3 arguments, spread), assignments to $ locals, ?:, arrays, typeof, parentheses, prefix and binary operators; member access on call results / parentheses / arrays / literals arises in value position (refused forms); with 'this' in 1 of 8 programs; oracle 1: an independent walk of the generated AST (must-set = names and maximal paths in value position; names that are only assignment targets are don't-care), no duplicates, non-local = the same minus $-prefixed entries, refused form => both functions fail; oracle 2 (programs without 'this'): evaluation against the world and against the world restricted to the top-level names of the reported fields plus callee names must agree (value by deep comparison, or both errors); non-trivial: >=3 distinct fields and a path of depth >=2, a call with arguments or a $ local; distinct by text")
 	defer run.End(t)
-	h.RapidSetup(h.N(10000, 800000), "c10rand")
+	h.RapidSetup(h.N(10000, 3000000), "c10rand")
 	cfgThis := c10Cfg
 	cfgThis.Kws = []string{"null", "true", "this"}
 	rapid.Check(t, func(rt *rapid.T) {
